@@ -1,5 +1,6 @@
 """C09 - lazy tables are coherent (premises of the coherence theorem, decided structurally)."""
 from ..engine import analyze_fn, norm, State
+from ..engine import norm as nm
 from ..terms import T, Term, pp
 
 LEVEL = "other"
@@ -131,6 +132,16 @@ def run(ctx, rep):
             else:
                 rep.bad("iterator", "next:outcome", w, "UNRECOGNISED outcome %s: next() is not parse_at(.., &mut self.offset, self.data).ok()" % pp(t)[:200])
         rep.require(n_some == 1, "iterator", "next:one-parse", w, "one parsing path", "%d parsing paths" % n_some)
+    # ---- the iterator API is exactly `next` (provided methods such as nth/skip/step_by/size_hint are core's defaults over next)
+    for imp in F["impls"]:
+        if imp["self_adt"] == "parse::ParsingIterator" and nm(imp.get("trait") or "") == "iter::Iterator":
+            names = sorted(i["name"] for i in imp["items"] if i["name"] != "Item")
+            rep.require(names == ["next"], "iterator", "no-override:Iterator", wh(imp["span"]), "implements only next()",
+                        "impl Iterator for ParsingIterator overrides provided methods %s: their agreement with next()/get() is not established"
+                        % [x for x in names if x != "next"])
+        if imp["self_adt"] == "parse::ParsingTable" and nm(imp.get("trait") or "") == "iter::IntoIterator":
+            names = sorted(i["name"] for i in imp["items"] if i["name"] not in ("Item", "IntoIter"))
+            rep.require(names == ["into_iter"], "iterator", "no-override:IntoIterator", wh(imp["span"]), "implements only into_iter()", "IntoIterator impl has %s" % names)
     # ---- aliases and immutability
     al = {a["path"]: norm(a["target"]) for a in F["aliases"]}
     for name, item in (("relocation::RelIterator", "relocation::Rel"), ("relocation::RelaIterator", "relocation::Rela")):
@@ -144,7 +155,7 @@ def run(ctx, rep):
     imm = [f for a in F["adts"] for v in a["variants"] for f in v["fields"]
            if any(x in f["ty"] for x in ("Cell<", "RefCell<", "Atomic", "UnsafeCell<", "Mutex<", "OnceCell<"))]
     rep.require(not imm, "immutability", "no interior mutability", "-", "accessors are functions of the bytes alone", "interior mutability: %s" % imm)
-    copy = any(i.get("trait") == "std::marker::Copy" and i["self_adt"] == "parse::ParsingTable" for i in F["impls"])
+    copy = any(nm(i.get("trait") or "") == "marker::Copy" and i["self_adt"] == "parse::ParsingTable" for i in F["impls"])
     rep.require(copy, "immutability", "ParsingTable: Copy", "src/parse.rs", "tables are Copy views over a shared slice", "ParsingTable is no longer Copy")
     rep.trusted_base += ["C02 decode-size: every in-crate ParseAt consumes exactly size_for(class) >= 1 bytes on success and fails iff fewer remain",
                         "out-of-crate ParseAt impls are out of scope"]
